@@ -169,6 +169,12 @@ pub mod probe_token {
             env.storage().instance().set(&Key::Symbol, &symbol);
             env.storage().instance().set(&Key::Decimals, &decimals);
         }
+        /// a token may change what it reports about itself
+        pub fn set_meta(env: Env, name: String, symbol: String, decimals: u32) {
+            env.storage().instance().set(&Key::Name, &name);
+            env.storage().instance().set(&Key::Symbol, &symbol);
+            env.storage().instance().set(&Key::Decimals, &decimals);
+        }
         pub fn name(env: Env) -> String {
             env.storage().instance().get(&Key::Name).unwrap()
         }
